@@ -120,5 +120,9 @@ Definition scope : list (list record) :=
   flat_map (fun f => map (fun g => [[f; g]; []; [g]]) small_fields) small_fields ++
   flat_map (fun f => map (fun g => [[f]; [g; f]]) small_fields) small_fields.
 
+Lemma q_csv_empty_input_rejected_refuted :
+  csv_encode [] = [] /\ csv_decode_arg true (csv_encode []) = Err /\ csv_decode_arg false (csv_encode []) = Ok [].
+Proof. vm_compute. repeat split; reflexivity. Qed.
+
 Lemma csv_roundtrip_bounded : forallb rt_exact scope = true.
 Proof. vm_compute. reflexivity. Qed.
